@@ -387,6 +387,7 @@ def run(chk):
     _threadjoin_rule(chk, prog)
     _armguard_rule(chk, prog)
     _postpair_rule(chk, prog)
+    _reap_rule(chk, prog)
 
 
 ACQUIRE = ("socket", "accept", "accept4", "open", "dup", "inotify_init1", "inotify_init", "epoll_create1", "timerfd_create",
@@ -802,3 +803,29 @@ def _postpair_rule(chk, prog):
                       "ever and janet_loop never finds the loop idle again" % resvar)
     else:
         chk.ok(rule, "janet_ev_handle_selfpipe: every message read is matched by janet_ev_dec_refcount")
+
+
+def _reap_rule(chk, prog):
+    """The finaliser of a process handle that was never waited for kills the child and then has to REAP it: a killed
+    child stays a zombie until somebody waits for it, and after the finaliser nobody else ever will.  SIGKILL is
+    asynchronous, so right after kill() the child has normally not exited yet - a non-blocking wait (WNOHANG) finds
+    nothing to reap and the zombie stays for the life of the process."""
+    rule = "C20-REAP"
+    chk.rule(rule, "the process finaliser waits for the child it has just killed with a blocking waitpid")
+    fn = next((f for f in prog.all_funcs() if f.name == "janet_proc_gc"), None)
+    if fn is None:
+        raise AnalysisBroken("janet_proc_gc not found")
+    chk.analysed(fn)
+    kills = fn.calls("kill")
+    waits = [c for c in fn.calls("waitpid") if len(c.args) == 3]
+    if not kills or not waits:
+        raise AnalysisBroken("janet_proc_gc: kill / waitpid not found")
+    for c in waits:
+        chk.instance(rule)
+        opt = strip_casts(c.args[2])
+        if opt.v == 0:
+            chk.ok(rule, "janet_proc_gc: `%s` blocks until the killed child is reaped" % c.text()[:40])
+        else:
+            chk.violation(rule, fn.tu.name, fn.name, "waitpid-options", c.loc,
+                          "`%s` does not block (options %s): immediately after kill(SIGKILL) the child has not exited yet, nothing is "
+                          "reaped, and the handle is freed - the child remains a zombie until janet exits" % (c.text()[:50], opt.text()))
